@@ -472,3 +472,118 @@ class HistGen:
                 L += self.queries()
         L += self.queries()
         return L
+
+
+# ---------------------------------------------------------------------------
+# exhaustive small-scope enumeration (thorough tiers): every sequence of up to
+# `depth` operations from a state-dependent alphabet. Used only to validate the
+# model against the code and to look for failing inputs; never instead of a theorem.
+# ---------------------------------------------------------------------------
+
+def small_alphabet(m, legal_only):
+    """Concrete next operations for bookkeeping state `m` (a MiniLog): (line, apply | None)."""
+    ops = []
+    last, purged = m.last, m.purged
+    nxt = 0 if purged is None else purged[1] + 1
+
+    def mk(f):
+        return f
+
+    # votes
+    v = m.vote or (0, 0)
+    ops.append((f"vote {v[0] + 1} 0", "vote_up"))
+    if not legal_only and v > (0, 0):
+        ops.append((f"vote {max(0, v[0] - 1)} 0", None))
+    # appends
+    if last is None:
+        ops.append(("app 1,0,aa", "app"))
+        ops.append(("app 1,5,aa", "app"))
+    else:
+        ops.append((f"app {last[0]},{last[1] + 1},aa", "app"))
+        ops.append((f"app {last[0] + 1},{last[1] + 1},.", "app"))
+        if not legal_only:
+            ops.append((f"app {last[0]},{last[1] + 2},aa", None))
+            ops.append((f"app {last[0]},{last[1]},aa", None))
+    # truncates
+    cands = {nxt} | {e[1] + 1 for e in m.entries} | ({e[1] for e in m.entries if e[1] > nxt})
+    for i in sorted(cands):
+        ops.append((f"trunc {i}", "trunc"))
+    if not legal_only:
+        hi = (last[1] + 3) if last else 3
+        ops.append((f"trunc {hi}", None))
+        if nxt > 0:
+            ops.append((f"trunc {nxt - 1}", None))
+    # purges
+    for e in m.entries[:2] + m.entries[-1:]:
+        ops.append((f"purge {e[0]} {e[1]}", "purge"))
+    if last is not None:
+        ops.append((f"purge {last[0] + 1} {last[1] + 2}", "purge"))
+    else:
+        ops.append(("purge 1 3", "purge"))
+    # commit
+    c = m.committed or (0, 0)
+    ops.append((f"commit {c[0]} {c[1] + 1}", "commit"))
+    if not legal_only and c > (0, 0):
+        ops.append((f"commit 0 0", None))
+    ops.append(("ud 0102", "ud"))
+    # dedupe
+    seen, out = set(), []
+    for o in ops:
+        if o[0] not in seen:
+            seen.add(o[0])
+            out.append(o)
+    return out
+
+
+def apply_small(m, line):
+    """Update the bookkeeping for an accepted op (mirrors RefLog loosely)."""
+    import copy
+    m = copy.deepcopy(m)
+    t = line.split()
+    if t[0] == "vote":
+        m.vote = (int(t[1]), int(t[2]))
+    elif t[0] == "app":
+        a, b, _ = t[1].split(",", 2)
+        e = (int(a), int(b))
+        m.last = e
+        m.entries.append(e)
+    elif t[0] == "trunc":
+        idx = int(t[1])
+        nxt = 0 if m.purged is None else m.purged[1] + 1
+        new_last = m.purged if idx == nxt else next((e for e in m.entries if e[1] == idx - 1), None)
+        m.entries = [e for e in m.entries if e[1] < idx]
+        if m.last is not None and (new_last is None or new_last < m.last):
+            m.last = new_last
+    elif t[0] == "purge":
+        u = (int(t[1]), int(t[2]))
+        nxt = 0 if m.purged is None else m.purged[1] + 1
+        if u[1] >= nxt:
+            if m.purged is None or m.purged < u:
+                m.purged = u
+            if m.last is None or m.last < u:
+                m.last = u
+            m.entries = [e for e in m.entries if e[1] > u[1]]
+    elif t[0] == "commit":
+        m.committed = (int(t[1]), int(t[2]))
+    return m
+
+
+def enum_histories(depth, legal_only, queries, cfgs):
+    out = []
+
+    def rec(m, lines, d):
+        if d == 0:
+            return
+        for line, kind in small_alphabet(m, legal_only):
+            new = lines + [line] + queries
+            out.append(new)
+            if kind is not None and kind != "vote_up" or kind == "vote_up":
+                m2 = apply_small(m, line) if kind is not None else m
+                rec(m2, new, d - 1)
+
+    rec(MiniLog(), [], depth)
+    res = []
+    for k, cfg in enumerate(cfgs):
+        for i, lines in enumerate(out):
+            res.append((f"e{k}_{i}", [cfg, "open"] + lines))
+    return res
